@@ -106,8 +106,11 @@ def map_diags(meta, diags, woven_name):
         if not spans:
             tool.append(msg)
             continue
-        if d.get("code") is not None or "rlimit" in msg.lower() or "resource limit" in msg.lower() \
-                or "not supported" in msg.lower() or "unsupported" in msg.lower():
+        ml = msg.lower()
+        if d.get("code") is not None or "rlimit" in ml or "resource limit" in ml \
+                or "not supported" in ml or "unsupported" in ml or "not yet support" in ml \
+                or "does not support" in ml or "not implemented" in ml or "unexpected token" in ml \
+                or ml.startswith("expected ") or "cannot find" in ml:
             tool.append("%s @%d" % (msg, spans[0]["line_start"]))
             continue
         rendered = (d.get("rendered") or msg)[:1500]
@@ -431,6 +434,23 @@ def main():
     }
     os.makedirs(os.path.join(VERIF, "replays"), exist_ok=True)
     rc = 0
+    hard_tool = []
+    for t in r["tool_errors"]:
+        mm = re.search(r"@(\d+)$", t)
+        if mm and ("rlimit" in t.lower() or "resource limit" in t.lower()):
+            L = int(mm.group(1))
+            owner = [f["path"] for f in meta["functions"] if f["woven_line_start"] <= L <= f["woven_line_end"]]
+            if owner and owner[0] not in fns_of:
+                continue  # a solver limit in a function this property does not depend on
+        hard_tool.append(t)
+    if hard_tool:
+        # the verifier did not get as far as checking obligations (unsupported construct, syntax or
+        # resolution error in the woven file, solver limit): nothing is decided
+        cov["explanation"] = "UNDECIDED: " + "; ".join(hard_tool)[:600]
+        cov["violated_obligations"] = []
+        write_evidence(cov, 0, base_assumptions)
+        print("UNDECIDED property=%s reason=%s" % (pid, cov["explanation"][:400]))
+        sys.exit(2)
     for k in kf_lines:
         print("KNOWN-FINDING: property=%s %s" % (pid, k["what"]))
     for o in viol:
